@@ -336,6 +336,77 @@ pub fn run_sim_manual(spec: &SimSpec) -> String {
     }
 }
 
+/// The documented loop again, but the environment and the agent set are MOVED in memory between steps (onto the
+/// heap and back, into vectors that reallocate): nothing but (seed, parameters, agents) may influence the run.
+pub fn run_sim_moved(spec: &SimSpec) -> String {
+    use bourse_de::agents::{AgentSet, MarketAgentSet};
+    use rand::SeedableRng;
+    use rand_xoshiro::Xoroshiro128StarStar;
+    let r = std::panic::catch_unwind(|| {
+        let mut rng = Xoroshiro128StarStar::seed_from_u64(spec.seed);
+        if !spec.multi {
+            let mut env: Env = Env::new(spec.t0, spec.ticks[0], spec.step, spec.trading);
+            let mut set = build_set(&spec.agents);
+            for k in 0..spec.steps {
+                match k % 3 {
+                    0 => {
+                        let mut be = Box::new(env);
+                        let mut bs = Box::new(set);
+                        bs.update(&mut be, &mut rng);
+                        be.step(&mut rng);
+                        env = *be;
+                        set = *bs;
+                    }
+                    1 => {
+                        let mut v = vec![env];
+                        v.reserve(4);
+                        set.update(&mut v[0], &mut rng);
+                        v[0].step(&mut rng);
+                        env = v.pop().unwrap();
+                    }
+                    _ => {
+                        set.update(&mut env, &mut rng);
+                        env.step(&mut rng);
+                    }
+                }
+            }
+            env_obs_line(&EnvW::<10>(env, spec.step), spec.trading)
+        } else {
+            macro_rules! go {
+                ($a:literal) => {{
+                    let ticks: [u32; $a] = std::array::from_fn(|i| spec.ticks[i]);
+                    let mut env: MarketEnv<$a, 10> = MarketEnv::new(spec.t0, ticks, spec.step, spec.trading);
+                    let mut set = build_mset(&spec.agents);
+                    for k in 0..spec.steps {
+                        if k % 2 == 0 {
+                            let mut be = Box::new(env);
+                            let mut bs = Box::new(set);
+                            bs.update(&mut be, &mut rng);
+                            be.step(&mut rng);
+                            env = *be;
+                            set = *bs;
+                        } else {
+                            set.update(&mut env, &mut rng);
+                            env.step(&mut rng);
+                        }
+                    }
+                    env_obs_line(&MEnvW::<$a, 10>(env, spec.step), spec.trading)
+                }};
+            }
+            match spec.ticks.len() {
+                1 => go!(1),
+                2 => go!(2),
+                3 => go!(3),
+                _ => panic!("unsupported asset count"),
+            }
+        }
+    });
+    match r {
+        Ok(s) => s,
+        Err(_) => "r=PANIC sh=ok perm=- rngck=1 n=0".to_string(),
+    }
+}
+
 pub fn fnv64(s: &str) -> u64 {
     let mut h: u64 = 0xcbf29ce484222325;
     for b in s.as_bytes() {
